@@ -95,7 +95,7 @@ thread_local! {
     static CLIENT: reqwest::blocking::Client = reqwest::blocking::Client::builder().timeout(Duration::from_secs(10)).connect_timeout(Duration::from_secs(2)).pool_max_idle_per_host(0).build().unwrap();
 }
 
-fn grpc_request(port: u16, rtype: &str, body: String) -> Result<Value, String> {
+pub fn grpc_request(port: u16, rtype: &str, body: String) -> Result<Value, String> {
     let rt = tokio::runtime::Builder::new_current_thread().enable_all().build().map_err(|e| e.to_string())?;
     let rtype = rtype.to_string();
     let fut = async move {
